@@ -52,6 +52,18 @@ func init() {
 	})
 }
 
+// c17Touch: the process uses the types (computes their type keys, as done when
+// registering decoders) between the registrations of the renames.
+var c17Touch bool
+
+func c17TouchTypes() {
+	if c17Touch {
+		for _, e := range []error{&C17Foo{}, &C17Bar{}, &C17Qux{}, &C17Baz{}, &C17Zed{}} {
+			_ = errors.GetTypeKey(e)
+		}
+	}
+}
+
 // inProcess runs body in a simulated process of the given version; order
 // selects the registration order of chained renames (version 4 only).
 func inProcess(version, order int, body func()) {
@@ -68,9 +80,11 @@ func inProcess(version, order int, body func()) {
 	case 4:
 		if order%2 == 0 {
 			errors.RegisterTypeMigration("verifh", "*verifh.C17Foo", &C17Bar{})
+			c17TouchTypes()
 			errors.RegisterTypeMigration("verifh", "*verifh.C17Bar", &C17Baz{})
 		} else {
 			errors.RegisterTypeMigration("verifh", "*verifh.C17Bar", &C17Baz{})
+			c17TouchTypes()
 			errors.RegisterTypeMigration("verifh", "*verifh.C17Foo", &C17Bar{})
 		}
 	case 5:
@@ -83,6 +97,7 @@ func inProcess(version, order int, body func()) {
 		perms := [][3]int{{0, 1, 2}, {0, 2, 1}, {1, 0, 2}, {1, 2, 0}, {2, 0, 1}, {2, 1, 0}}
 		for _, i := range perms[order%6] {
 			regs[i]()
+			c17TouchTypes()
 		}
 	}
 	body()
@@ -158,6 +173,8 @@ func H_C17_Migration(v *sym.V) {
 	recv := v.Choice("recv", nv+1)
 	order := v.Choice("order", 6)
 	wrapped := v.Choice("wrapped", 2) == 1
+	c17Touch = v.Choice("touch", 2) == 1
+	defer func() { c17Touch = false }()
 
 	var enc *wire.Enc
 	inProcess(sender, order, func() {
